@@ -18,6 +18,9 @@ Structural clauses of the data-transfer machinery, decided from the source (no O
 * proto        the (factor, offset) tuple of unit_conversion and the (a0, a1, factor, offset) tuple of the
                root scale factors are produced, stored, unpacked and applied in the same order/direction;
                the additive unit offset gets an adder array
+* unit-factor  the (factor, offset) of unit_conversion equals what the unit definitions imply, incl. on-demand
+               prefixed units and reciprocal units (units.py interpreted with the exact interpreter of C06)
+* src-shape-fresh edge indexers are resolved against the current shape of their source at every setup
 * scaling-flags the flags that switch unit conversion on (group flag, scaled-subsystem set, transfer flag)
 * scale-idx    array ref/ref0 of the source go through the input's src_indices on every scalar/array pattern
 * slice-norm   slice bounds that need the source size are resolved before the flat index array is built
@@ -2760,6 +2763,129 @@ def index_arrays(repo, out):
                 out.unsure(fn, astx.stmt_of(c), 'normalised slice does not feed ShapedSliceIndexer directly')
 
 
+# =========================================================================== C04.unit-factor
+# (source units, input units, function whose clause the probe exercises)
+UNIT_PAIRS = [
+    ('km', 'ft', 'PhysicalUnit.conversion_tuple_to'), ('hr', 's', 'PhysicalUnit.conversion_tuple_to'),
+    ('degC', 'degF', 'PhysicalUnit.conversion_tuple_to'), ('degF', 'K', 'PhysicalUnit.conversion_tuple_to'),
+    ('m/hr', 'ft/s', 'PhysicalUnit.__div__'), ('kN*mm', 'N*m', 'PhysicalUnit.__mul__'),
+    ('m**2', 'sq', 'PhysicalUnit.__pow__'),
+    # one- and two-letter prefixes created on demand
+    ('cm', 'm', '_find_unit'), ('m', 'dam', '_find_unit'), ('dam', 'cm', '_find_unit'), ('daN', 'N', '_find_unit'),
+    ('dalb', 'kg', '_find_unit'), ('kft', 'dam', '_find_unit'),
+    # reciprocal units  <number>/<unit>
+    ('1/hr', '1/s', 'PhysicalUnit.__rdiv__'), ('1/s', '1/hr', 'PhysicalUnit.__rdiv__'),
+    ('1/ft', '1/m', 'PhysicalUnit.__rdiv__'), ('1/km', '1/ft', 'PhysicalUnit.__rdiv__'),
+    ('2.0/hr', '1/s', 'PhysicalUnit.__rdiv__'), ('1/sq', '1/m**2', 'PhysicalUnit.__rdiv__'),
+    ('1/hr', 's**-1', 'PhysicalUnit.__rdiv__'),
+]
+
+
+@rule('C04.unit-factor', floor=15)
+def unit_factor(repo, out):
+    """The (factor, offset) that unit_conversion hands to the transfer is the one the unit definitions imply (exact)."""
+    try:
+        from . import C06 as _c06
+    except Exception as e:   # pragma: no cover
+        raise AnalysisError(f'C06 rule module (units interpreter) not importable: {e}')
+    for a, b, qn in UNIT_PAIRS:
+        lab = _c06.Lab(repo)          # fresh unit cache: every probe takes the creation path itself
+        fn = lab.fn(qn)
+        with _c06.guarded(out, fn):
+            try:
+                sa = _c06.spec_eval(a, lab.spec, _c06.PREFIXES)
+                sb = _c06.spec_eval(b, lab.spec, _c06.PREFIXES)
+            except _c06.SpecReject as e:
+                raise AnalysisError(f'probe pair ({a}, {b}) has no meaning in the synthetic library: {e}')
+            if sa.p != sb.p:
+                raise AnalysisError(f'probe pair ({a}, {b}) is not dimensionally compatible')
+            # x_in = (x_src + offset) * factor  with  x_base = (x + d) * f  on both sides
+            want = (sa.f / sb.f, sa.d - sb.d * sb.f / sa.f)
+            k, v = _c06.attempt(lambda: lab.call('unit_conversion', a, b))
+            if k == 'raise':
+                out.bad(fn, fn.node, f'unit_conversion({a!r}, {b!r}) raises {v}; a connection from {a} to {b} is valid '
+                        f'and needs factor {want[0]}, offset {want[1]}', key=f'conv:{a}->{b}')
+                continue
+            if not (isinstance(v, tuple) and len(v) == 2):
+                out.unsure(fn, fn.node, f'unit_conversion({a!r}, {b!r}) does not return a pair')
+                continue
+            got = (_c06.frac(v[0]), _c06.frac(v[1]))
+            if got == want:
+                out.ok(fn, fn.node, f'{a} -> {b}: factor {got[0]}, offset {got[1]}')
+            else:
+                out.bad(fn, fn.node, f'an input in {b} connected to a source in {a} is converted with (factor, offset) = '
+                        f'({got[0]}, {got[1]}); the definitions of the two units imply ({want[0]}, {want[1]}): the '
+                        'input silently holds the source value in the wrong scale', key=f'conv:{a}->{b}')
+
+
+# =========================================================================== C04.src-shape-fresh
+@rule('C04.src-shape-fresh', floor=2)
+def src_shape_fresh(repo, out):
+    """An edge's src_indices are (re)resolved against the CURRENT shape of their source node at every setup."""
+    mod = repo.module(CONN)
+    # a module-wide reset of the remembered shape would make a `_src_shape is None` guard harmless
+    resets = [st for f in mod.funcs.values() for st in astx.walk_stmts(f.node.body)
+              if isinstance(st, ast.Assign) and any(isinstance(t, ast.Attribute) and t.attr == '_src_shape'
+                                                    for t in st.targets)
+              and isinstance(st.value, ast.Constant) and st.value.value is None]
+    n = 0
+    for qn in ('AllConnGraph.get_parent_val_shape_units', 'AllConnGraph.resolve_output_input_connection'):
+        fn = repo.func(CONN, qn)
+        sym = Sym(fn)
+        calls = [c for c in _calls_named(fn.node, 'set_src_shape') if isinstance(c.func, ast.Attribute)]
+        if not calls:
+            out.bad(fn, fn.node, 'the src_indices of the edge are never given the shape of their source node: negative '
+                    'indices, open slices and `...` cannot be resolved', key='src-shape-never-set')
+            continue
+        for c in calls:
+            st = astx.stmt_of(c)
+            at = sym.at(c)
+            rt = sym.term(c.func.value, at)
+            if not contains(rt, lambda x: x == ('const', 'src_indices')):
+                continue                       # not the indexer stored on the edge
+            n += 1
+            # the shape handed over is the shape of the edge's first node (parent / source)
+            shp = sym.term(c.args[0], at) if c.args else None
+            edge_first = None
+            for a in alts(rt):
+                # self.edges[(u, v)].get('src_indices', None)  |  self.edges[edge].get(...)
+                if _k(a, 'call') and _k(a[1], 'attr') and a[1][2] == 'get' and _k(a[1][1], 'sub'):
+                    key = a[1][1][2]
+                    if _k(key, 'tuple') and len(key) == 3:
+                        edge_first = key[1]
+            shape_ok = shp is not None and all(
+                _k(x, 'attr') and x[2] in ('shape', 'global_shape') and _k(x[1], 'sub') and _const(x[1][2], 'attrs')
+                and _k(x[1][1], 'sub') and (edge_first is None or x[1][1][2] == edge_first) for x in alts(shp))
+            if not shape_ok:
+                out.bad(fn, st, f'the indexer of the edge is resolved against `{show(shp)}`, not against the shape of '
+                        'the source-side node of that edge', key='src-shape-of-other-node')
+                continue
+            stale = None
+            for a in astx.ancestors(st):
+                if isinstance(a, ast.If) and astx.in_body(st, a, 'body'):
+                    for cj in (a.test.values if isinstance(a.test, ast.BoolOp) and isinstance(a.test.op, ast.And)
+                               else [a.test]):
+                        t = sym.term(cj, sym.g.nodes_of(a)[0])
+                        if _k(t, 'cmp') and t[1] == 'Is' and t[3] == ('const', None) and \
+                                t[2] == ('attr', rt, '_src_shape'):
+                            stale = a
+                        elif _k(t, 'un') and t[1] == 'Not' and t[2] == ('attr', rt, '_src_shape'):
+                            stale = a
+            if stale is None:
+                out.ok(fn, st, 'src_indices.set_src_shape(<shape of the source node>) on every resolution')
+            elif resets:
+                out.unsure(fn, stale, 'shape only set when unset, and _src_shape is reset somewhere; not analysed')
+            else:
+                out.bad(fn, stale, 'the source shape is only given to the indexer while it has none '
+                        '(`if src_indices._src_shape is None`): the Indexer object of a connect()/promotes() made '
+                        'outside setup() survives a re-setup, so after the source was resized negative indices, open '
+                        'slices and `...` are still resolved against the OLD source shape and the input silently gets '
+                        'the wrong source entries (Indexer.set_src_shape is already a no-op for an unchanged shape)',
+                        key='stale-src-shape')
+    if n == 0:
+        raise AnalysisError('no set_src_shape call on an edge indexer found in the connection resolution')
+
+
 # =========================================================================== C04.api
 SYSTEM = 'openmdao/core/system.py'
 
@@ -3245,6 +3371,9 @@ selftest(
          "        if mode != 'fwd':  # rev\n            tgt_vals = in_vec._get_data()[self._in_inds]\n            gathered = np.bincount(self._out_inds, weights=tgt_vals,\n                                   minlength=out_vec._data.size)\n            out_vec.iadd(gathered)\n            return\n\n        src_vals = out_vec.asarray()[self._out_inds.flat]\n        in_vec.set_val(src_vals, self._in_inds)"),
     Twin('twin-xf-rev-test', XFER, "        if mode == 'fwd':\n            # this works whether the vecs have multi columns or not due to broadcasting\n            in_vec.set_val(out_vec.asarray()[self._out_inds.flat], self._in_inds)\n\n        else:  # rev\n            out_vec.iadd(",
          "        if mode == 'rev':\n            out_vec.iadd(np.bincount(self._out_inds, in_vec._get_data()[self._in_inds],\n                                     minlength=out_vec._data.size))\n        else:\n            in_vec.set_val(out_vec.asarray()[self._out_inds.flat], self._in_inds)\n        if False:\n            out_vec.iadd("),
+    Twin('twin-uf-prefix-slice', UNITS, "add_unit(item, prefixes[item[0:2]] * unit_table[item[2:]])", "add_unit(item, unit_table[item[2:]] * prefixes[item[:2]])"),
+    Twin('twin-uf-rdiv-temp', UNITS, "        return PhysicalUnit({str(other): 1} - self._names,\n                            float(other) / self._factor,",
+         "        num = float(other)\n        return PhysicalUnit({str(other): 1} - self._names,\n                            num / self._factor,"),
     # ---- the repaired defects re-introduced (pre-fix shapes) and the independently seeded changes
     Mutant('revert-d1-shortcut-guard', CONN, "elif len(src_inds_list) == 1 and src_inds_list[0]._flat_src:", "elif len(src_inds_list) == 1:", 'C04.src-index'),
     Mutant('revert-d2-ravel', CONN, "            return np.atleast_1d(arr).ravel()", "            return arr", 'C04.src-index'),
@@ -3271,4 +3400,26 @@ selftest(
     Mutant('sn-backwards-case-widened', INDEXER, "        if slc.stop is None and slc.step < 0:  # special backwards indexing case\n            self._shaped_inst", "        if slc.stop is None or slc.step < 0:  # special backwards indexing case\n            self._shaped_inst", 'C04.slice-norm'),
     Mutant('sn-as-array-special-dropped', INDEXER, "            if slc.stop is None and slc.step < 0:  # special case - neg step down to -1\n                return np.arange(self._src_shape[0], dtype=int)[slc]\n            else:\n                # use maxsize here since a shaped slice always has positive int start and stop\n                return np.arange(*slc.indices(sys.maxsize), dtype=int)",
            "            return np.arange(*slc.indices(sys.maxsize), dtype=int)", 'C04.slice-norm'),
+    # ---- round-2 seeds
+    Mutant('seed2-1-discrete-under-xfer', GROUP, "            if self._conn_discrete_in2out and vec_name == 'nonlinear':\n                self._discrete_transfer(sub)\n\n        else:  # rev",
+           "                if self._conn_discrete_in2out and vec_name == 'nonlinear':\n                    self._discrete_transfer(sub)\n\n        else:  # rev", 'C04.group-xfer'),
+    Mutant('seed2-2-two-letter-prefix', UNITS, "add_unit(item, prefixes[item[0:2]] * unit_table[item[2:]])", "add_unit(item, prefixes[item[0]] * unit_table[item[2:]])", 'C04.unit-factor'),
+    Mutant('seed2-3-rdiv-multiplies', UNITS, "                            float(other) / self._factor,", "                            float(other) * self._factor,", 'C04.unit-factor'),
+    Mutant('uf-prefix-base-offset', UNITS, "add_unit(item, prefixes[item[0:2]] * unit_table[item[2:]])", "add_unit(item, prefixes[item[0:2]] * unit_table[item[1:]])", 'C04.unit-factor'),
+    Mutant('uf-rdiv-powers', UNITS, "                            float(other) / self._factor,\n                            [-x for x in self._powers])", "                            float(other) / self._factor,\n                            [x for x in self._powers])", 'C04.unit-factor'),
+    Mutant('uf-offset-sign', UNITS, "        offset = self._offset - (other._offset * other._factor / self._factor)", "        offset = self._offset + (other._offset * other._factor / self._factor)", 'C04.unit-factor'),
+    # ---- src-shape-fresh
+    Mutant('revert-d6-guard-parent', CONN, "            src_indices.set_src_shape(shape)\n            shape = src_indices.indexed_src_shape",
+           "            if src_indices._src_shape is None:\n                src_indices.set_src_shape(shape)\n            shape = src_indices.indexed_src_shape", 'C04.src-shape-fresh'),
+    Mutant('revert-d6-guard-resolve', CONN, "                src_indices.set_src_shape(src_shape)\n                src_shape = src_indices.indexed_src_shape",
+           "                if src_indices._src_shape is None:\n                    src_indices.set_src_shape(src_shape)\n                src_shape = src_indices.indexed_src_shape", 'C04.src-shape-fresh'),
+    Mutant('ssf-guard-not', CONN, "                src_indices.set_src_shape(src_shape)\n                src_shape = src_indices.indexed_src_shape",
+           "                if not src_indices._src_shape:\n                    src_indices.set_src_shape(src_shape)\n                src_shape = src_indices.indexed_src_shape", 'C04.src-shape-fresh'),
+    Mutant('ssf-never-set', CONN, "            src_indices.set_src_shape(shape)\n            shape = src_indices.indexed_src_shape", "            shape = src_indices.indexed_src_shape", 'C04.src-shape-fresh'),
+    Mutant('ssf-target-shape', CONN, "                src_indices.set_src_shape(src_shape)\n                src_shape = src_indices.indexed_src_shape",
+           "                src_indices.set_src_shape(tgt_meta.shape)\n                src_shape = src_indices.indexed_src_shape", 'C04.src-shape-fresh'),
+    Twin('twin-ssf-temp', CONN, "                src_indices.set_src_shape(src_shape)\n                src_shape = src_indices.indexed_src_shape",
+         "                cur_shape = src_shape\n                src_indices.set_src_shape(cur_shape)\n                src_shape = src_indices.indexed_src_shape"),
+    Twin('twin-ssf-guard-changed', CONN, "            src_indices.set_src_shape(shape)\n            shape = src_indices.indexed_src_shape",
+         "            if src_indices._src_shape != shape:\n                src_indices.set_src_shape(shape)\n            shape = src_indices.indexed_src_shape"),
 )
